@@ -33,9 +33,10 @@ extern "C" void __sanitizer_cov_trace_pc_guard_init(uint32_t *start, uint32_t *s
 }
 uint32_t cov_num_guards() { return g_nguards; }
 uint32_t cov_count_hit() { uint32_t c = 0; for (uint32_t i = 1; i <= g_nguards && i < MAXGUARD; i++) c += g_cov[i]; return c; }
-void cov_dump(const char *path) {
+extern "C" char __executable_start;
+void cov_dump(const char *path) {   // image-relative PCs: comparable across processes (ASLR) and what llvm-symbolizer expects for a PIE
     FILE *f = fopen(path, "w"); if (!f) return;
-    for (uint32_t i = 1; i <= g_nguards && i < MAXGUARD; i++) if (g_cov[i]) fprintf(f, "%p\n", g_pc[i]);
+    for (uint32_t i = 1; i <= g_nguards && i < MAXGUARD; i++) if (g_cov[i]) fprintf(f, "0x%lx\n", (unsigned long)((char *)g_pc[i] - &__executable_start));
     fclose(f);
 }
 
